@@ -180,41 +180,117 @@ class Flow:
         s = {consts[0]}
         return (set(self.dom.universe) - s) if neg else s
 
-    # -- walk ------------------------------------------------------------------------------------------------------
+    # -- walk: returns the values under which evaluation falls through ---------------------------------------------------
     def run(self, want):
         """want(node) -> bool; records (node, set) for every wanted node"""
         self.want = want
         self.visit(self.f["body"], set(self.dom.universe))
         return self.hits
 
+    def _descend(self, n, S):
+        """a call that hands the tracked value to a function of the workspace: the wanted nodes of its body are reached under S
+        refined by the callee's own tests"""
+        if self.depth >= 2:
+            return
+        t = n if n.get("k") == "MethodCall" else n.get("f", {})
+        args = ([n.get("recv")] + n.get("args", [])) if n.get("k") == "MethodCall" else n.get("args", [])
+        if not any(isinstance(a, dict) and self.dom.level(a.get("ty")) for a in args):
+            return
+        g = self.facts.fns.get(t.get("rid") or t.get("id"))
+        if g is None or "body" not in g or g["id"] == self.f["id"]:
+            return
+        sub = Flow(self.dom, g, self.depth + 1)
+        sub.want = self.want
+        sub.visit(g["body"], set(S))
+        self.hits += sub.hits
+
     def visit(self, n, S):
         if isinstance(n, list):
             for x in n:
-                self.visit(x, S)
-            return
+                S = self.visit(x, S)
+            return S
         if not isinstance(n, dict):
-            return
+            return S
+        S = set(S)
+        if "s" in n and "k" not in n:          # statement
+            if n["s"] == "Let":
+                if "init" not in n:
+                    return S
+                S = self.visit(n["init"], S)
+                if "els" in n:
+                    lv = self.dom.level(n["init"].get("ty"))
+                    if lv:
+                        t = self.dom.pat_set(n["pat"], lv)
+                        self.visit(n["els"], S - t)
+                        return S & t
+                    self.visit(n["els"], S)
+                return S
+            return self.visit(n.get("e"), S)
         if self.want(n):
             self.hits.append((n, set(S)))
         k = n.get("k")
+        if k == "Block":
+            for st in n.get("stmts", []):
+                S = self.visit(st, S)
+            if "expr" in n:
+                S = self.visit(n["expr"], S)
+            return S
+        if k == "Ret":
+            if "v" in n:
+                self.visit(n["v"], S)
+            return set()
+        if k in ("Break", "Continue"):
+            return set()
         if k == "If":
             c = self.cond(n["cond"])
             self.visit(n["cond"], S)
-            self.visit(n["then"], S if c is None else S & c)
+            out = self.visit(n["then"], S if c is None else S & c)
             if n.get("else") is not None:
-                self.visit(n["else"], S if c is None else S - c)
-            return
-        if k == "Match" and self.dom.level(n.get("scrutty")) and n.get("src") == "Normal":
-            lv = self.dom.level(n["scrutty"])
-            rest = set(self.dom.universe) if lv == "outer" else set(self.dom.inner_vars)
+                out |= self.visit(n["else"], S if c is None else S - c)
+            else:
+                out |= S if c is None else S - c
+            return out
+        if k == "Match":
+            src = n.get("src")
+            if src == "Try":
+                sc = n["scrut"]
+                return self.visit(sc["args"][0] if sc.get("k") == "Call" and sc.get("args") else sc, S)
+            if src == "ForLoop":
+                self.visit(n["scrut"], S)
+                for arm in n["arms"]:          # the arms are alternatives (None => break | Some(x) => body), not a sequence
+                    self.visit(arm, S)
+                return S
+            if self.dom.level(n.get("scrutty")) and src == "Normal":
+                lv = self.dom.level(n["scrutty"])
+                rest = set(self.dom.universe) if lv == "outer" else set(self.dom.inner_vars)
+                out = set()
+                for arm in n["arms"]:
+                    a = self.dom.pat_set(arm["pat"], lv) & rest
+                    if "guard" in arm:
+                        self.visit(arm["guard"], S & a)
+                    else:
+                        rest -= a
+                    out |= self.visit(arm["body"], S & a)
+                return out
+            S = self.visit(n["scrut"], S)
+            out = set()
             for arm in n["arms"]:
-                a = self.dom.pat_set(arm["pat"], lv) & rest
                 if "guard" in arm:
-                    self.visit(arm["guard"], S & a)
-                else:
-                    rest -= a
-                self.visit(arm["body"], S & a)
-            return
+                    self.visit(arm["guard"], S)
+                out |= self.visit(arm["body"], S)
+            return out
+        if k == "Loop":
+            self.visit(n["body"], S)
+            return S
+        if k == "Closure":
+            self.visit(n.get("body"), S)
+            return S
+        if k in ("Call", "MethodCall"):
+            mac = str(n.get("mac", "")).rstrip("!")
+            if "panic" in mac or mac in ("unreachable", "unimplemented", "todo"):
+                return set()
+            self._descend(n, S)
         for key, v in n.items():
             if key != "mir" and isinstance(v, (dict, list)):
-                self.visit(v, S)
+                S = self.visit(v, S)
+        return S
